@@ -364,12 +364,13 @@ fn rewrite_keeping_facts(rng: &mut Rng, st: &mut GenState, d: &Doc, what: usize)
     }
 }
 
-fn gen_plan(rng: &mut Rng, len: usize, enabled: &[bool; 7], p_fault: u32) -> (FaultPlan, &'static str) {
+fn gen_plan(rng: &mut Rng, bytes: &[u8], enabled: &[bool; 8], p_fault: u32) -> (FaultPlan, &'static str) {
+    let len = bytes.len();
     let mut plan = FaultPlan::default();
     if !rng.pct(p_fault) {
         return (plan, "none");
     }
-    let kinds: Vec<usize> = (0..7).filter(|i| enabled[*i]).collect();
+    let kinds: Vec<usize> = (0..8).filter(|i| enabled[*i]).collect();
     if kinds.is_empty() {
         return (plan, "none");
     }
@@ -428,6 +429,28 @@ fn gen_plan(rng: &mut Rng, len: usize, enabled: &[bool; 7], p_fault: u32) -> (Fa
             }
             (plan, "truncated")
         }
+        7 => {
+            // reads that end inside multi-byte sequences (or at random offsets if there are none)
+            let inside: Vec<usize> = (1..len).filter(|i| bytes[*i] & 0xc0 == 0x80).collect();
+            let n = rng.range(1, 4);
+            let mut offs: Vec<usize> = (0..n)
+                .map(|_| {
+                    if !inside.is_empty() && rng.pct(80) {
+                        *rng.pick(&inside)
+                    } else {
+                        rng.below(len.max(1))
+                    }
+                })
+                .collect();
+            offs.sort();
+            offs.dedup();
+            plan.script = offs.into_iter().map(ReadEv::Until).collect();
+            if rng.pct(25) {
+                let at = rng.below(plan.script.len() + 1);
+                plan.script.insert(at, ReadEv::Interrupted);
+            }
+            (plan, "split_reads")
+        }
         _ => {
             // flipped stored byte that stays valid UTF-8 (ASCII case bit / low bit)
             plan.corrupt = Some((rng.below(len.max(1)), *rng.pick(&[0x01u8, 0x20, 0x02])));
@@ -436,7 +459,115 @@ fn gen_plan(rng: &mut Rng, len: usize, enabled: &[bool; 7], p_fault: u32) -> (Fa
     }
 }
 
+/// Dense sampling of the small space named in C12's quantifier: 3 ids x a handful of
+/// contents that define / import / re-define one key, short histories without file I/O.
+fn generate_tiny(rng: &mut Rng) -> (HistScenario, String) {
+    let ids = ["a.aidl", "b.aidl", "c.aidl"];
+    let mut serial = 0u64;
+    let base = |kind: Kind, pkg: &str, name: &str, imports: Vec<String>, members: Vec<gen::Member>, serial: u64| Doc {
+        pkg: pkg.to_owned(),
+        imports,
+        fwd: vec![],
+        kind,
+        oneway: false,
+        name: name.to_owned(),
+        annots: vec![],
+        doc: None,
+        members,
+        serial,
+        header_one_line: false,
+        members_one_line: false,
+        banner: None,
+    };
+    let uses = |ty: &str| {
+        vec![gen::Member::Method {
+            oneway: false,
+            ret: gen::Ty::Void,
+            name: "m".to_owned(),
+            args: vec![gen::Arg {
+                dir: None,
+                ty: gen::Ty::Named(ty.to_owned()),
+                name: Some("x".to_owned()),
+                annots: vec![],
+            }],
+            code: None,
+            annots: vec![],
+            doc: None,
+        }]
+    };
+    let n_steps = rng.range(2, 8);
+    let n_callers = rng.range(1, 3);
+    let policy = match rng.below(3) {
+        0 => Policy::Const(rng.below(8) as u64),
+        1 => Policy::Stream(rng.next_u64()),
+        _ => Policy::PerCaller(rng.next_u64()),
+    };
+    let mut steps = Vec::new();
+    for _ in 0..n_steps {
+        serial += 1;
+        let op = match rng.below(10) {
+            0..=5 => {
+                let c = match rng.below(7) {
+                    0 | 1 => Content::Doc(base(Kind::Interface, "p", "IFoo", vec!["p.Bar".to_owned()], uses("Bar"), serial)),
+                    2 => Content::Doc(base(Kind::Parcelable, "p", "Bar", vec![], vec![], serial)),
+                    3 => Content::Doc(base(Kind::Enum, "p", "Bar", vec![], vec![], serial)),
+                    4 => Content::Raw(rng.pick(&["", "package p; interface {", "parcelable", "package p; import p.Bar; enum { }"]).to_string()),
+                    5 => Content::Doc(base(Kind::Interface, "p", "Bar", vec![], vec![], serial)),
+                    _ => Content::Doc(base(
+                        Kind::Parcelable,
+                        "q",
+                        "Other",
+                        vec!["p.IFoo".to_owned(), "p.Bar".to_owned()],
+                        vec![gen::Member::Field {
+                            ty: gen::Ty::Named("Bar".to_owned()),
+                            name: "f".to_owned(),
+                            value: None,
+                            annots: vec![],
+                            doc: None,
+                        }],
+                        serial,
+                    )),
+                };
+                Op::Add {
+                    path: rng.pick(&ids).to_string(),
+                    content: c,
+                }
+            }
+            6 | 7 => Op::Remove {
+                path: rng.pick(&ids).to_string(),
+            },
+            _ => Op::Validate { times: rng.range(1, 2) },
+        };
+        steps.push(Step {
+            op,
+            caller: rng.below(n_callers),
+            obs_caller: rng.below(n_callers),
+            tag: "tiny".to_owned(),
+        });
+    }
+    steps.push(Step {
+        op: Op::Validate { times: 2 },
+        caller: rng.below(n_callers),
+        obs_caller: rng.below(n_callers),
+        tag: "validate".to_owned(),
+    });
+    let observe_every_step = rng.pct(50);
+    let desc = format!("tiny: 3 ids x 7 content classes, steps={} callers={n_callers} policy={} observe_all={observe_every_step}", steps.len(), policy.name());
+    (
+        HistScenario {
+            steps,
+            policy,
+            n_callers,
+            observe_every_step,
+        },
+        desc,
+    )
+}
+
 pub fn generate(rng: &mut Rng, prop: Prop, thorough: bool) -> (HistScenario, String) {
+    if rng.pct(12) {
+        return generate_tiny(rng);
+    }
     let u = Universe::generate(rng);
     let gk = GenKnobs::generate(rng);
     let n_paths = rng.range(2, 8);
@@ -460,7 +591,7 @@ pub fn generate(rng: &mut Rng, prop: Prop, thorough: bool) -> (HistScenario, Str
     let w_disk = if files_enabled { *rng.pick(&[10u32, 20]) } else { 0 };
     let w_add_file = if files_enabled { *rng.pick(&[15u32, 30, 45]) } else { 0 };
     let p_fault = *rng.pick(&[0u32, 30, 50, 70]);
-    let mut enabled = [false; 7];
+    let mut enabled = [false; 8];
     for e in enabled.iter_mut() {
         *e = rng.pct(65);
     }
@@ -490,6 +621,8 @@ pub fn generate(rng: &mut Rng, prop: Prop, thorough: bool) -> (HistScenario, Str
     };
     let observe_every_step = rng.pct(70);
     let mut steps: Vec<Step> = Vec::new();
+    // generator's copy of the bytes on disk (document + raw tail)
+    let mut disk_bytes: BTreeMap<String, Vec<u8>> = BTreeMap::new();
     let mk = |rng: &mut Rng, op: Op, tag: &str| Step {
         op,
         caller: rng.below(n_callers),
@@ -521,7 +654,15 @@ pub fn generate(rng: &mut Rng, prop: Prop, thorough: bool) -> (HistScenario, Str
                 let d = st.fresh_doc(rng);
                 let c = st.content_from(rng, d);
                 st.disk.insert(disk_slot(&p), c.clone());
-                steps.push(mk(rng, Op::DiskWrite { path: p, content: c, tail: Vec::new() }, "disk_seed"));
+                let tail: Vec<u8> = if rng.pct(30) {
+                    "\n// caf\u{e9} 10\u{20ac} \u{1f600}\n".as_bytes().to_vec()
+                } else {
+                    Vec::new()
+                };
+                let mut all = c.text().into_bytes();
+                all.extend_from_slice(&tail);
+                disk_bytes.insert(disk_slot(&p), all);
+                steps.push(mk(rng, Op::DiskWrite { path: p, content: c, tail }, "disk_seed"));
             }
         }
     }
@@ -617,13 +758,19 @@ pub fn generate(rng: &mut Rng, prop: Prop, thorough: bool) -> (HistScenario, Str
                 let p = rng.pick(&st.paths).clone();
                 let d = st.fresh_doc(rng);
                 let c = st.content_from(rng, d);
-                let tail: Vec<u8> = match rng.below(12) {
+                let tail: Vec<u8> = match rng.below(16) {
                     0 => vec![0xff],
                     1 => b"\n// caf\xc3".to_vec(), // multi-byte sequence cut by EOF
-                    2 => b"\n// caf\xc3\xa9\n".to_vec(), // valid non-ASCII after the item
+                    2 => b"\n// \xe2\x82".to_vec(),
                     3 => vec![0xc0, 0xaf],
+                    // valid non-ASCII after the item (2-, 3- and 4-byte sequences)
+                    4 | 5 => b"\n// caf\xc3\xa9\n".to_vec(),
+                    6 | 7 => "\n// caf\u{e9} 10\u{20ac} \u{1f600}\u{1f600} \u{e9}\u{e9}\u{e9}\n".as_bytes().to_vec(),
                     _ => Vec::new(),
                 };
+                let mut all = c.text().into_bytes();
+                all.extend_from_slice(&tail);
+                disk_bytes.insert(disk_slot(&p), all);
                 st.disk.insert(disk_slot(&p), c.clone());
                 steps.push(mk(rng, Op::DiskWrite { path: p, content: c, tail }, "disk_write"));
             }
@@ -639,11 +786,11 @@ pub fn generate(rng: &mut Rng, prop: Prop, thorough: bool) -> (HistScenario, Str
                 } else {
                     rng.pick(&on_disk).clone()
                 };
-                let len = st.disk.get(&disk_slot(&p)).map(|c| c.text().len()).unwrap_or(0);
+                let bytes: Vec<u8> = disk_bytes.get(&disk_slot(&p)).cloned().unwrap_or_default();
                 let (plan, fault) = if passthrough_run {
                     (FaultPlan::default(), "none")
                 } else {
-                    gen_plan(rng, len, &enabled, p_fault)
+                    gen_plan(rng, &bytes, &enabled, p_fault)
                 };
                 // bookkeeping (approximate): a load without error-type faults succeeds
                 let fails = plan.open_error.is_some()
